@@ -68,7 +68,7 @@ func (s *pvSuite) New(t reflect.Type) any {
 
 // pvLog is a PubVerShare in the discrete-log representation.
 type pvLog struct {
-	I                uint32
+	I               uint32
 	V, C, R, VG, VH *big.Int
 }
 
@@ -107,7 +107,7 @@ type pvScen struct {
 	h        *shG
 	su       *pvSuite
 	n, t     int
-	hl       *big.Int   // log of H
+	hl       *big.Int // log of H
 	H        kyber.Point
 	xs       []*big.Int // private keys
 	X        []kyber.Point
@@ -359,7 +359,7 @@ func c13Stage2(r *pvRun, sc *pvScen, rng *kc.Rng, qh string) {
 		}
 		err := pvss.VerifyEncShare(su, H, X, sHp, h.sc(expC), e)
 		cs := pvCase{kind: "VerifyEncShare", got: pvBoolOfErr(err), nt: true,
-			line: fmt.Sprintf("pvss %s verifyenc %s %s %s %s %s", qh, kc.HexN(hl), kc.HexN(xl), kc.HexN(sHl), kc.HexN(expC), l.tok()),
+			line:   fmt.Sprintf("pvss %s verifyenc %s %s %s %s %s", qh, kc.HexN(hl), kc.HexN(xl), kc.HexN(sHl), kc.HexN(expC), l.tok()),
 			replay: map[string]any{"group": h.name, "n": n, "t": t, "trustee": i, "mutation": mut}}
 		if mut == "" && err != nil {
 			cs.pred, cs.key = "honest encrypted share rejected", "C13:VerifyEncShare:honest"
@@ -619,8 +619,8 @@ func c13Stage3(r *pvRun, sc *pvScen, rng *kc.Rng, qh string, exhaustive bool) {
 	type triple struct {
 		x    *big.Int
 		e, d pvLog
-		good bool // honest triple
-		idx  int  // trustee
+		good bool   // honest triple
+		idx  int    // trustee
 		cls  string // for a mutated triple: what the mutation changed (pvClass)
 	}
 	doRecover := func(tr []triple, tt int, desc, mut string) {
@@ -1046,6 +1046,16 @@ func c13Dleq(r *pvRun, h *shG, rng *kc.Rng, count int) {
 	}
 }
 
+// pvGuard runs a stage of the check; a panic of the real code on these well-typed inputs is a finding.
+func pvGuard(c *kc.Ctx, what string, f func()) {
+	defer func() {
+		if r := recover(); r != nil {
+			c.Violation("C13:panic:"+what, fmt.Sprintf("the real code panicked during %s: %v", what, r), nil)
+		}
+	}()
+	f()
+}
+
 func runC13(c *kc.Ctx) {
 	c.SetRule("case = one call of the real pvss/dleq package (group, function, dealer instance given by n, t, keys, base H, secret, recorded randomness; for verification calls the object with at most one altered field, swapped component or exchanged slot; for recovery the list of triples as given); all are non-trivial; distinct by model line")
 	c.Assume("H_RO: a Fiat–Shamir challenge is the oracle value observed from the real run (digest recorded through suite.Hash, turned into a scalar as the code does)",
@@ -1094,7 +1104,8 @@ func runC13(c *kc.Ctx) {
 		for _, n := range ns {
 			for t := 1; t <= n; t++ {
 				for rep := 0; rep < perN; rep++ {
-					sc := newPvScen(r, h, rng.Fork(fmt.Sprint("scen", n, t, rep)), n, t, (n+t+rep)%4)
+					var sc *pvScen
+					pvGuard(c, "EncShares", func() { sc = newPvScen(r, h, rng.Fork(fmt.Sprint("scen", n, t, rep)), n, t, (n+t+rep)%4) })
 					if sc == nil {
 						continue
 					}
@@ -1107,7 +1118,7 @@ func runC13(c *kc.Ctx) {
 				}
 			}
 		}
-		c13Dleq(r, h, rng.Fork("dleq"), c.N(40, 400))
+		pvGuard(c, "dleq", func() { c13Dleq(r, h, rng.Fork("dleq"), c.N(40, 400)) })
 	}
 	if c.ReplayFile != "" {
 		fmt.Println("C13 replays are re-executed by re-running the check with the same VERIF_SEED (cases are derived from named forks of the seed); the replay file names group, n, t and mutation")
@@ -1116,12 +1127,13 @@ func runC13(c *kc.Ctx) {
 	c13Compare(r, 0)
 	from := len(r.cases)
 	for _, f := range stage2 {
-		f()
+		pvGuard(c, "verify-enc/dec-share stage", f)
 	}
 	c13Compare(r, from)
 	from = len(r.cases)
 	for _, s := range stage3 {
-		c13Stage3(r, s.sc, s.rng, kc.HexN(s.sc.h.q), s.exh)
+		s := s
+		pvGuard(c, "verify-dec/recover stage", func() { c13Stage3(r, s.sc, s.rng, kc.HexN(s.sc.h.q), s.exh) })
 	}
 	c13Compare(r, from)
 	c.Extra("scenarios", len(scens))
